@@ -181,12 +181,13 @@ package m3
 // tags, and comes back empty (same backing array); an empty batch is a no-op.
 
 //@ func (*reporter).flush
-//@   property C12, C13
+//@   property C12, C13, C14
 //@   emits
 //@   requires r != nil && r.client != nil
 //@   modifies r.numBatches, r.numWriteErrors, elems(mets)
 //@   ensures @comes_back_empty len(result) == 0 && arrof(result) == arrof(mets)
 //@   ensures @an_empty_batch_is_not_sent len(mets) == 0 ==> quiet()
+//@   ensures @the_consumer_never_feeds_its_own_queue len(calls) <= old(len(calls)) + 1
 //@   ensures @sent_exactly_once_with_the_common_tags len(mets) > 0 ==> one_more() && calls[old(len(calls))] == evn("m3.emit", r.client, arrof(mets), len(mets), arrof(r.commonTags), len(r.commonTags))
 //@   loop 1 invariant @idx 0 <= rangeindex+1 && rangeindex+1 <= len(mets) && len(calls) == old(len(calls)) + 1 && calls[old(len(calls))] == evn("m3.emit", r.client, arrof(mets), len(mets), arrof(r.commonTags), len(r.commonTags)) && (forall j int :: 0 <= j && j < old(len(calls)) ==> calls[j] == old(calls[j]))
 
@@ -197,7 +198,7 @@ package m3
 // appended to the open batch exactly once and every batch is handed to flush.
 
 //@ func (*reporter).process
-//@   property C12, C13
+//@   property C12, C13, C14
 //@   emits
 //@   allocs
 //@   requires r != nil && r.client != nil && r.freeBytes > 0 && r.freeBytes <= 65535
